@@ -495,7 +495,12 @@ def inline_fresh_helpers(tree: ast.Module, ref_mod: dict) -> None:
                             ren[p] = a.id
                             continue
                         # the helper re-binds its parameter: that is the helper's own variable, never the caller's (also when
-                        # the caller's variable has the same name) -- it becomes a local copy of the argument
+                        # the caller's variable has the same name) -- unless the caller never reads its variable again (then
+                        # nobody can tell), it becomes a local copy of the argument
+                        if isinstance(a, ast.Name) and _dead_after(fn, call, a.id):
+                            if a.id != p:
+                                ren[p] = a.id
+                            continue
                         pname = f"{p}__{nth}"
                         if pname in caller_names:
                             bad = True
@@ -683,6 +688,45 @@ def unroll_fresh_generators(tree: ast.Module, ref_mod: dict) -> None:
                 blk[idx:idx + 1] = new
             c.body = [x for x in c.body if x is not g] or [ast.Pass()]
     ast.fix_missing_locations(tree)
+
+
+def _dead_after(fn: ast.FunctionDef, call: ast.Call, name: str) -> bool:
+    """Is local `name` never read after the statement containing `call` (source order; the call must not sit in a loop, where
+    earlier statements run again)?"""
+    order = []
+
+    def rec(stmts, in_loop):
+        for st in stmts:
+            order.append((st, in_loop))
+            for fld in ("body", "orelse", "finalbody"):
+                sub = getattr(st, fld, None)
+                if isinstance(sub, list) and sub and isinstance(sub[0], ast.stmt) and not isinstance(st, (ast.FunctionDef, ast.ClassDef)):
+                    rec(sub, in_loop or isinstance(st, (ast.For, ast.While)))
+            for h in getattr(st, "handlers", []) or []:
+                rec(h.body, in_loop)
+    rec(fn.body, False)
+    idx = None
+    for k, (st, in_loop) in enumerate(order):
+        simple = not any(isinstance(getattr(st, fld, None), list) and getattr(st, fld) and isinstance(getattr(st, fld)[0], ast.stmt) for fld in ("body", "orelse", "finalbody"))
+        if simple and any(x is call for x in ast.walk(st)):
+            if in_loop:
+                return False
+            idx = k
+    if idx is None:
+        return False
+    call_names = {id(x) for x in ast.walk(call)}
+    for st, _l in order[idx + 1:]:
+        own = st.test if isinstance(st, (ast.If, ast.While)) else (st.iter if isinstance(st, ast.For) else st)
+        scope_nodes = list(ast.walk(own)) if not isinstance(st, (ast.Try, ast.With)) else [y for it in getattr(st, "items", []) for y in ast.walk(it.context_expr)]
+        if isinstance(st, (ast.If, ast.While, ast.For)):
+            pass
+        if any(isinstance(x, ast.Name) and x.id == name and isinstance(x.ctx, ast.Load) for x in scope_nodes):
+            return False
+    # reads in the call statement itself outside the call (e.g. `f(x) + x`) count as after
+    st0 = order[idx][0]
+    if any(isinstance(x, ast.Name) and x.id == name and isinstance(x.ctx, ast.Load) and id(x) not in call_names for x in ast.walk(st0)):
+        return False
+    return True
 
 
 def _nested_site(fn: ast.FunctionDef, call: ast.Call, body):
@@ -1079,6 +1123,43 @@ def dict_iteration_forms(fn: ast.FunctionDef, ref_fn: dict) -> None:
         node.target = ast.Tuple(elts=[ast.Name(id=k, ctx=ast.Store()), ast.Name(id=v, ctx=ast.Store())], ctx=ast.Store())
         node.iter = ast.Call(func=ast.Attribute(value=node.iter, attr="items", ctx=ast.Load()), args=[], keywords=[])
     ast.fix_missing_locations(fn)
+
+
+def thread_none_flag(fn: ast.FunctionDef, known) -> None:
+    """`if A: t = None else: t = E` directly followed by `if t is None: X` with X leaving the function and E a value that is
+    never None (arithmetic, len(), a non-None literal): the flag variable is threaded away -- `if A: X`, then `t = E` and the rest."""
+    def never_none(e):
+        if isinstance(e, ast.Constant):
+            return e.value is not None
+        if isinstance(e, (ast.BinOp, ast.Compare, ast.JoinedStr, ast.Tuple, ast.List, ast.Dict)):
+            return True
+        if isinstance(e, ast.Call) and isinstance(e.func, ast.Name) and e.func.id in ("len", "int", "float", "str", "bytes", "bytearray", "bool", "abs", "min", "max", "list", "tuple"):
+            return True
+        return False
+    for _owner, _fld, blk in blocks_of(fn):
+        for i in range(len(blk) - 1):
+            a, b = blk[i], blk[i + 1]
+            if not (isinstance(a, ast.If) and len(a.body) == 1 and len(a.orelse) == 1 and all(isinstance(x, ast.Assign) and len(x.targets) == 1 and isinstance(x.targets[0], ast.Name)
+                                                                                              for x in (a.body[0], a.orelse[0]))):
+                continue
+            t = a.body[0].targets[0].id
+            if a.orelse[0].targets[0].id != t:
+                continue
+            vb, vo = a.body[0].value, a.orelse[0].value
+            cond = a.test
+            if isinstance(vo, ast.Constant) and vo.value is None and never_none(vb):
+                vb, vo, cond = vo, vb, negate(cond)
+            if not (isinstance(vb, ast.Constant) and vb.value is None and never_none(vo)):
+                continue
+            if not (isinstance(b, ast.If) and not b.orelse and isinstance(b.test, ast.Compare) and len(b.test.ops) == 1 and isinstance(b.test.ops[0], ast.Is)
+                    and isinstance(b.test.left, ast.Name) and b.test.left.id == t and isinstance(b.test.comparators[0], ast.Constant) and b.test.comparators[0].value is None
+                    and always_exits(b.body)):
+                continue
+            if any(isinstance(x, ast.Name) and x.id == t for st in b.body for x in ast.walk(st)):
+                continue
+            blk[i:i + 2] = [ast.copy_location(ast.If(test=cond, body=b.body, orelse=[]), a), ast.copy_location(ast.Assign(targets=[ast.Name(id=t, ctx=ast.Store())], value=vo), a)]
+            ast.fix_missing_locations(fn)
+            return thread_none_flag(fn, known)
 
 
 def hoist_common_tail(fn: ast.FunctionDef, ref_fn: dict) -> None:
